@@ -112,7 +112,8 @@ class CheckComparisons(MultiFunction):
             if self.nodetype[base] == "real" and int(exponent) == exponent:
                 self.nodetype[o] = "real"
                 return o
-        except TypeError:
+        except (TypeError, OverflowError, ValueError):
+            # not a number, or infinite / not-a-number (int() refuses those)
             pass
 
         self.nodetype[o] = "complex"
